@@ -28,6 +28,10 @@ func AcceptTLSConn(l net.Listener) (*tls.Conn, error) {
 	return tlsConn, nil
 }
 
+// exchangeTimeout bounds the record exchange that follows connection
+// establishment.
+const exchangeTimeout = 5 * time.Second
+
 func dialTLS(hostport string, config *tls.Config) (*tls.Conn, Data, error) {
 	config.NextProtos = []string{alpn}
 
@@ -64,6 +68,12 @@ func dialTLS(hostport string, config *tls.Config) (*tls.Conn, Data, error) {
 }
 
 func exchangeDataTLS(ctx context.Context, log *slog.Logger, conn *tls.Conn, data *Data) error {
+	// A peer that stops sending must not block the caller indefinitely.
+	err := conn.SetDeadline(time.Now().Add(exchangeTimeout))
+	if err != nil {
+		return err
+	}
+
 	var msg ExchangeMsg
 
 	var nextproto NextProto
